@@ -361,4 +361,76 @@ theorem shiftBy_one_last (q : List Nat) (h : 0 < q.length) :
   | nil => simp at h
   | cons a as => simp
 
+/-! ### crop / delay arithmetic -/
+
+theorem startZeros_le (l : List Int) : startZeros l ≤ l.length := by
+  induction l with
+  | nil => simp [startZeros]
+  | cons v vs ih => simp only [startZeros]; split <;> simp <;> omega
+
+theorem startZeros_replicate (e : Nat) : startZeros (List.replicate e (0 : Int)) = e := by
+  induction e with
+  | zero => simp [startZeros]
+  | succ e ih => simp [List.replicate_succ, startZeros, ih]
+
+theorem startZeros_append (l : List Int) (e : Nat) :
+    startZeros (l ++ List.replicate e 0) =
+      if startZeros l = l.length then l.length + e else startZeros l := by
+  induction l with
+  | nil => simp [startZeros, startZeros_replicate]
+  | cons v vs ih =>
+    simp only [List.cons_append, startZeros, List.length_cons]
+    by_cases hv : v ≠ 0
+    · simp [hv]
+    · simp only [hv, if_false, ih]
+      have := startZeros_le vs
+      split <;> split <;> omega
+
+theorem padCropFrom_ge (a : Nat) (alphas : List (List Int)) (delays : List Nat) :
+    a ≤ padCropFrom a alphas delays := by
+  induction alphas generalizing a delays with
+  | nil => simp [padCropFrom]
+  | cons α as ih =>
+    cases delays with
+    | nil => simp [padCropFrom]
+    | cons d ds => simp only [padCropFrom]; exact Nat.le_trans (Nat.le_add_right _ _) (ih _ _)
+
+theorem imposed_le (α : List Int) (d : Nat) : imposed α d ≤ d := by
+  unfold imposed; split <;> omega
+
+theorem cropFrom_padded (total a : Nat) (alphas : List (List Int)) (delays : List Nat)
+    (ht : padCropFrom a alphas delays ≤ total) :
+    cropFrom a (List.zipWith (fun alpha pro => List.replicate pro 0 ++ alpha ++ List.replicate (total - pro) 0)
+      alphas (prologues a alphas delays)) delays = padCropFrom a alphas delays := by
+  induction alphas generalizing a delays with
+  | nil => simp [cropFrom, padCropFrom, prologues]
+  | cons α as ih =>
+    cases delays with
+    | nil => simp [cropFrom, padCropFrom, prologues]
+    | cons d ds =>
+      simp only [prologues, List.zipWith_cons_cons, cropFrom, padCropFrom] at ht ⊢
+      have hge := padCropFrom_ge (a + imposed α d) as ds
+      have hdrop : (List.replicate a (0 : Int) ++ α ++ List.replicate (total - a) 0).drop a
+          = α ++ List.replicate (total - a) 0 := by
+        rw [List.append_assoc, List.drop_append_of_le_length (by simp)]
+        simp
+      have hmin : min (startZeros (α ++ List.replicate (total - a) 0)) d = imposed α d := by
+        rw [startZeros_append]
+        have hle := startZeros_le α
+        by_cases hz : startZeros α = α.length
+        · have hi : imposed α d = d := by simp [imposed, hz]
+          rw [hi] at hge ht ⊢
+          simp only [hz, if_true]
+          omega
+        · have hi : imposed α d = min (startZeros α) d := by simp [imposed, hz]
+          rw [hi]
+          simp [hz]
+      rw [hdrop, hmin]
+      exact ih _ _ ht
+
+theorem crop_of_padded (alphas : List (List Int)) (delays : List Nat) :
+    cropValue (padded alphas delays) delays = padCrop alphas delays := by
+  unfold cropValue padded padCrop
+  exact cropFrom_padded _ 0 alphas delays (Nat.le_refl _)
+
 end SFV.Tdm
